@@ -782,6 +782,21 @@ func transformFuncs(kind int) (interface{}, interface{}) {
 // dottedPath turns a reflect route into the dotted field-name path AddField takes, when there is one: every
 // hop but the last must be a struct-typed field (AddField resolves names with FieldByName hop by hop).
 func dottedPath(rt reflect.Type, route []int) (string, bool) {
+	// a field promoted from embedded structs (by value or by pointer) is named by its own name alone, when Go's
+	// promotion rules resolve that name to this very route
+	if len(route) > 1 && rt.Kind() == reflect.Struct {
+		if f, ok := fieldAt(rt, route); ok {
+			if sf, found := rt.FieldByName(f.Name); found && len(sf.Index) == len(route) {
+				same := true
+				for i := range route {
+					same = same && sf.Index[i] == route[i]
+				}
+				if same {
+					return f.Name, true
+				}
+			}
+		}
+	}
 	var names []string
 	for i, idx := range route {
 		if rt.Kind() != reflect.Struct || idx >= rt.NumField() {
@@ -795,6 +810,23 @@ func dottedPath(rt reflect.Type, route []int) (string, bool) {
 		}
 	}
 	return strings.Join(names, "."), len(names) > 0
+}
+
+// fieldAt follows a route of field indices, through pointers to structs
+func fieldAt(rt reflect.Type, route []int) (f reflect.StructField, ok bool) {
+	for i, idx := range route {
+		if rt.Kind() == reflect.Ptr {
+			rt = rt.Elem()
+		}
+		if rt.Kind() != reflect.Struct || idx >= rt.NumField() {
+			return f, false
+		}
+		f = rt.Field(idx)
+		if i < len(route)-1 {
+			rt = f.Type
+		}
+	}
+	return f, true
 }
 
 var buildCounter int
@@ -829,23 +861,6 @@ func (a *AD) buildViaBuilder() (ent *atlas.AtlasEntry) {
 			b = b.AddField(path, atlas.StructMapEntry{SerialName: f.name, OmitEmpty: f.omit})
 		}
 		ent = b.Complete()
-		// the builder must have resolved every name to the route and type the descriptor says
-		k := 0
-		for _, f := range a.flds {
-			got := ent.StructMap.Fields[k]
-			k++
-			if f.ignore {
-				continue
-			}
-			if len(got.ReflectRoute) != len(f.route) || got.Type != f.t.rt {
-				return nil
-			}
-			for i := range f.route {
-				if got.ReflectRoute[i] != f.route[i] {
-					return nil
-				}
-			}
-		}
 		return ent
 	}
 	return nil
